@@ -267,6 +267,10 @@ def draw_config(rng: random.Random, n: int) -> dict:
         "stall_max": rng.choice([5, 20, 50]),
         "reduce_shuffle": rng.random() < 0.8,
     }
+    # (drawn last, so that the other knobs of a given rng stay what they were)
+    # user-supplied input arrays in Fortran order / with extra unused entries
+    cfg["f_order_inputs"] = rng.random() < 0.15
+    cfg["extra_inputs"] = rng.random() < 0.15
     return cfg
 
 
@@ -280,6 +284,13 @@ DEFAULT_CONFIG = {
 
 
 # {{{ the kernel
+
+def _memory_image(a):
+    """the bytes MPI would put on the wire for this buffer: the array's MEMORY,
+    in memory order (for a Fortran-ordered array that is not the C-order
+    sequence of its elements), as a flat uint8 copy"""
+    return np.frombuffer(a.tobytes(order="A"), dtype=np.uint8).copy()
+
 
 class Sim:
     def __init__(self, n: int, chooser: Chooser, config: dict, *,
@@ -387,16 +398,19 @@ class Sim:
         if not (0 <= dest < self.n):
             raise SimProtocolError(f"Isend to invalid rank {dest}")
         data = np.asarray(buf)
+        if not (data.flags.c_contiguous or data.flags.f_contiguous):
+            # what mpi4py does with such a buffer
+            raise ValueError("ndarray is not contiguous")
         req = Request(self, "send", rank, dest, int(tag), data)
         req.eager = self.ch.flag("eager", self.cfg["eager_prob"])
         if req.eager:
-            req.snapshot = np.array(data, copy=True)
+            req.snapshot = _memory_image(data)
             req.complete = True
             self.stats["eager"] += 1
         else:
             self.stats["rendezvous"] += 1
             if not self.cfg["late_read"]:
-                req.snapshot = np.array(data, copy=True)
+                req.snapshot = _memory_image(data)
         ch = (rank, dest, int(tag))
         if ch not in self.send_q:
             self.send_q[ch] = []
@@ -418,6 +432,8 @@ class Sim:
             raise SimProtocolError(f"Irecv from invalid rank {source}")
         if not isinstance(buf, np.ndarray):
             raise SimProtocolError("Irecv buffer must be an ndarray")
+        if not buf.flags.c_contiguous:
+            raise SimProtocolError("Irecv buffer must be C-contiguous here")
         req = Request(self, "recv", rank, source, int(tag), buf)
         if buf.size:
             # contents of a receive buffer are undefined until completion
@@ -673,7 +689,7 @@ class Sim:
         if s.snapshot is not None:
             data = s.snapshot
         else:
-            data = np.asarray(s.buf)      # late read of the sender's buffer
+            data = _memory_image(np.asarray(s.buf))   # late read of the buffer
             self.stats["late_read"] += 1
         tf = self.transport_fault
         if tf is not None and tf["nth"] == self.stats["delivers"]:
